@@ -205,6 +205,13 @@ func runC01Case(c *Ctx, n, t int, rep uint64) {
 		spec := BatchSpec{Proposer: r.Intn(n), Signers: subsets[r.Intn(len(subsets))]}
 		kind := "explicit"
 		switch {
+		case b == 1 && rep == 0 && n <= 3:
+			// a long baked window (the documented use: hundreds of validators per batch), its length not a
+			// round number
+			lo := r.Intn(18000)
+			spec.Range = &world.Range{Start: lo, End: lo + 101 + r.Intn(160)}
+			kind = "baked-long"
+			c.Add("messages_in_long_baked_batches", spec.Range.End-spec.Range.Start)
 		case b == 1 && r.Intn(2) == 0:
 			lo := []int{0, 18631 - 3, r.Intn(18600)}[r.Intn(3)]
 			spec.Range = &world.Range{Start: lo, End: lo + 1 + r.Intn(3)}
